@@ -126,7 +126,7 @@ pub fn run(ctx: &mut Ctx) {
     ctx.rule = "seed of 16/32/64 bytes (70%) or any length 1..128, uniform or structured; path of depth 1..12 with indices from {0,1,2^31-1,2^31-2,byte-order probes,small,uniform 31-bit}, hardened flags all/none/BIP-44-shaped/inverted/random; rendered to text and parsed (the only public constructor). Oracle: BIP-32 written from the BIP over an independent secp256k1 (cross-checked against k256 in selftest). Non-trivial: some index != 0 or depth != 5; distinct by (seed, path).".into();
     ctx.assumptions = vec!["hmac/sha2 primitives are correct".into(), "BIP-32-invalid steps (I_L >= n, zero child) are unreachable by generation (probability < 2^-127)".into()];
     ctx.replay_known_and_regressions(&replay);
-    let n = ctx.tier.pick(20_000, 500_000);
+    let n = ctx.tier.pick(100_000, 1_000_000);
     ctx.run_prop("derive", n, || crate::gen::tape(160).prop_map(gen_case), judge);
     let total = ctx.cls.evaluations;
     ctx.floor("mixed", total, 0.2);
